@@ -147,6 +147,31 @@ class WHook:
                 if w["ok"]:
                     self.call(f"compacted:mean_fn_frequency[{inst.dist_f}]", lambda: comp.mean_fn_frequency(inst.dist_f), inst.f_mean(rat(w["mf"])), sline, cv, inst)
                     self.call(f"compacted:std_fn_frequency[{inst.dist_f}]", lambda: comp.std_fn_frequency(inst.dist_f), inst.f_std(rat(w["vf"])), sline, cv, inst)
+                # an azimuthal result ASSEMBLED from per-azimuth objects that carry this history (rejections made on them before):
+                # whichever windows the new object reports as accepted - all of them (today) or the ones accepted on the inputs -
+                # no rejected window counts in its resonance statistics, and its statistics are those of its accepted windows alone
+                if getattr(self, "rebuilt", 0) < 400:
+                    self.rebuilt = getattr(self, "rebuilt", 0) + 1
+                    reb = self.h.HvsrAzimuthal(list(obj.hvsrs), list(obj.azimuths), meta={"processing_method": "azimuthal"})
+                    vws = [np.array(x.valid_window_boolean_mask, dtype=bool) for x in reb.hvsrs]
+                    vps = [np.array(x.valid_peak_boolean_mask, dtype=bool) for x in reb.hvsrs]
+                    if any(np.any(vp_ & ~vw_) for vw_, vp_ in zip(vws, vps)):
+                        self.run.violation("wstat:assembled:rejected-window-counts", f"HvsrAzimuthal assembled from per-azimuth objects in state {s} on {inst.name()} cv={cv}: "
+                                           f"window masks {[v.tolist() for v in vws]} but peak masks {[v.tolist() for v in vps]} - a rejected window enters the resonance statistics",
+                                           dict(kind="wstat", accessor="assembled", cv=cv, state=s, inst=inst.name()))
+                    elif all(v.sum() >= 1 for v in vws):
+                        rows_ = [np.array([inst.amp(real.alphabet[c - 1]) for c, keep in zip(cv[a_i], vws[a_i]) if keep]) for a_i in range(self.na)]
+                        only = self.h.HvsrAzimuthal([self.h.HvsrTraditional(inst.freq, r_) for r_ in rows_], list(obj.azimuths))
+                        for nm, fa, fb in (("mean_curve", lambda: reb.mean_curve(inst.dist_a), lambda: only.mean_curve(inst.dist_a)),
+                                           ("mean_fn_frequency", lambda: reb.mean_fn_frequency(inst.dist_f), lambda: only.mean_fn_frequency(inst.dist_f)),
+                                           ("std_fn_frequency", lambda: reb.std_fn_frequency(inst.dist_f), lambda: only.std_fn_frequency(inst.dist_f))):
+                            try:
+                                va_, vb_ = fa(), fb()
+                            except Exception:
+                                continue
+                            if not np.allclose(va_, vb_, rtol=1e-9, equal_nan=True):
+                                self.run.violation(f"wstat:assembled:{nm}", f"HvsrAzimuthal assembled from per-azimuth objects in state {s} on {inst.name()} cv={cv}: {nm} = {va_}, "
+                                                   f"an object holding only its accepted windows has {vb_}", dict(kind="wstat", accessor="assembled", cv=cv, state=s, inst=inst.name()))
             # per-azimuth views are the traditional statistics of that azimuth
             azs = sline["az"]
             if all(a_["ncv"] >= 2 for a_ in azs):
